@@ -353,6 +353,15 @@ func (n *lazyNode) equal(o *lazyNode) bool {
 		return nNull && oNull
 	}
 
+	// Compare on scratch nodes so that nodes of the document are not
+	// parsed (and later re-encoded) as a side effect of a comparison.
+	if n.which == eRaw {
+		n = newLazyNode(n.raw)
+	}
+	if o.which == eRaw {
+		o = newLazyNode(o.raw)
+	}
+
 	if n.which == eRaw {
 		if !n.tryDoc() && !n.tryAry() {
 			if o.which != eRaw {
